@@ -571,7 +571,6 @@ func toNative(itf Iface) (interface{}, bool) {
 	return nil, false
 }
 
-
 // formatIntStub is the contract of strconv.FormatInt / FormatUint for a symbolic
 // argument: the shortest digit string of x in the base (forking on sign and
 // digit count).  Base 16 digits are nibbles of x; base 10 digits are fresh
